@@ -111,18 +111,24 @@ fn local_case<B: Backend>(cx: &mut Ctx, rng: &mut Prng, thorough: bool) {
     base.insert("m".into(), m.clone());
     base.insert("f".into(), f.clone());
     base.insert("i".into(), i.clone());
-    // forward: dangerous_seal_with_nonce with caller randomness
+    // forward: dangerous_seal_with_nonce with caller randomness; each call is followed by the same call under a
+    // neighbouring key (same nonce, message, footer, assertion), so that nothing remembered from one call can leak into the next
+    let keyb2 = { let mut k = keyb.clone(); k[31] ^= 1; k };
+    let key2: LocalKey<B> = key_from_bytes(&keyb2).unwrap();
     let rnds = special_nonces(rlen, rng);
     for (name, r) in rnds.iter().take(if thorough { 5 } else { 3 }) {
-        let tok = UnsealedToken::<B::V, Local, Raw>::new(Raw(m.clone())).with_footer(f.clone()).dangerous_seal_with_nonce(&key, &i, r.clone());
-        let mut inp = base.clone();
-        inp.insert("rnd".into(), r.clone());
-        match tok {
-            Ok(t) => {
-                let (p, _) = dt::split_token(&t.to_string(), hdr.len()).unwrap_or_default();
-                cx.equal("forward", &p, &ev(fam, &c["payload"], &inp), json!({"nonce": name}));
+        for (which, kb, k) in [("", &keyb, &key), ("neighbour-key", &keyb2, &key2)] {
+            let tok = UnsealedToken::<B::V, Local, Raw>::new(Raw(m.clone())).with_footer(f.clone()).dangerous_seal_with_nonce(k, &i, r.clone());
+            let mut inp = base.clone();
+            inp.insert("key".into(), kb.clone());
+            inp.insert("rnd".into(), r.clone());
+            match tok {
+                Ok(t) => {
+                    let (p, _) = dt::split_token(&t.to_string(), hdr.len()).unwrap_or_default();
+                    cx.equal("forward", &p, &ev(fam, &c["payload"], &inp), json!({"nonce": name, "after": which}));
+                }
+                Err(e) => cx.emit("forward", "equal", false, json!({"nonce": name, "after": which, "real_error": errname(&e)})),
             }
-            Err(e) => cx.emit("forward", "equal", false, json!({"nonce": name, "real_error": errname(&e)})),
         }
     }
     // backward: library randomness, nonce cut out by the spec's layout
@@ -139,23 +145,26 @@ fn local_case<B: Backend>(cx: &mut Ctx, rng: &mut Prng, thorough: bool) {
     } else {
         cx.emit("backward", "equal", false, json!({"real_error": "seal failed"}));
     }
-    // reference: spec-built tokens for chosen embedded nonces must decrypt to m
+    // reference: spec-built tokens for chosen embedded nonces must decrypt to m (again under both keys in turn)
     for (name, n) in special_nonces(rlen, rng) {
-        let mut inp = base.clone();
-        inp.insert("nonce".into(), n);
-        match ev(fam, &c["payload_from_nonce"], &inp) {
-            Ok(p) => {
-                let text = dt::token_string::<B, Local>(&p, &f);
-                let r = catch_unwind(AssertUnwindSafe(|| {
-                    SealedToken::<B::V, Local, Raw, Vec<u8>>::from_str(&text).and_then(|t| t.unseal(&key, &i, &NoValidation::dangerous_no_validation()))
-                }));
-                match r {
-                    Ok(Ok(u)) => cx.emit("reference", "accepted-same", u.claims.0 == m && u.footer == f, json!({"nonce": name, "accepted": true, "claims_len": u.claims.0.len()})),
-                    Ok(Err(e)) => cx.emit("reference", "accepted-same", false, json!({"nonce": name, "accepted": false, "real_error": errname(&e)})),
-                    Err(_) => cx.emit("reference", "accepted-same", false, json!({"nonce": name, "panic": true})),
+        for (which, kb, k) in [("", &keyb, &key), ("neighbour-key", &keyb2, &key2)] {
+            let mut inp = base.clone();
+            inp.insert("key".into(), kb.clone());
+            inp.insert("nonce".into(), n.clone());
+            match ev(fam, &c["payload_from_nonce"], &inp) {
+                Ok(p) => {
+                    let text = dt::token_string::<B, Local>(&p, &f);
+                    let r = catch_unwind(AssertUnwindSafe(|| {
+                        SealedToken::<B::V, Local, Raw, Vec<u8>>::from_str(&text).and_then(|t| t.unseal(k, &i, &NoValidation::dangerous_no_validation()))
+                    }));
+                    match r {
+                        Ok(Ok(u)) => cx.emit("reference", "accepted-same", u.claims.0 == m && u.footer == f, json!({"nonce": name, "after": which, "accepted": true, "claims_len": u.claims.0.len()})),
+                        Ok(Err(e)) => cx.emit("reference", "accepted-same", false, json!({"nonce": name, "after": which, "accepted": false, "real_error": errname(&e)})),
+                        Err(_) => cx.emit("reference", "accepted-same", false, json!({"nonce": name, "after": which, "panic": true})),
+                    }
                 }
+                Err(e) => cx.emit("reference", "accepted-same", false, json!({"evaluator_error": e})),
             }
-            Err(e) => cx.emit("reference", "accepted-same", false, json!({"evaluator_error": e})),
         }
     }
 }
